@@ -1,6 +1,7 @@
 import GoCrypt.Props.KdfProps
 import GoCrypt.Props.C16
 import GoCrypt.Props.C03b
+import GoCrypt.Props.KdfIR
 
 /-!
 # C03 — classic crypt(3) schemes compute the same hashes as the reference libcrypt
@@ -64,4 +65,15 @@ namespace GoCrypt.C03
 #print axioms GoCrypt.C03b.pc_tables_are_PC1_shifts_PC2
 #print axioms GoCrypt.C03b.salt_is_E_swap
 
+-- the KDF bodies ARE the current code (Props/KdfIR.lean): the hash-transcript IR regenerated from md5crypt.Encrypt, sha2crypt.Encrypt/duplicate,
+-- cryptoutil.Permute and the HMAC loop of sha1.Key, interpreted generically in H, equals the hand-written skeletons for all inputs (panics included)
+#print axioms GoCrypt.KdfIR.md5crypt_ir_eq_model
+#print axioms GoCrypt.KdfIR.sha2crypt_ir_eq_model
+#print axioms GoCrypt.KdfIR.sha256crypt_ir_eq_model
+#print axioms GoCrypt.KdfIR.sha512crypt_ir_eq_model
+#print axioms GoCrypt.KdfIR.sha2crypt_ir_unsupported_hash
+#print axioms GoCrypt.KdfIR.sha2crypt_ir_zero_rounds
+#print axioms GoCrypt.KdfIR.duplicate_ir_eq_model
+#print axioms GoCrypt.KdfIR.permute_ir_eq_model
+#print axioms GoCrypt.KdfIR.sha1_ir_eq_model
 end GoCrypt.C03
